@@ -326,6 +326,23 @@ def r5(ctx, P):
     ctx.floor("R5", "WalkBuilder configuration calls of the scanning commands", n, 14)
     if not nbad:
         ctx.ob("R5", "scanning walkers use path/config filters only", True, "%d WalkBuilder calls in utils::args, all in the path/configuration class" % n, nontrivial=False)
+    # the walker's file-type filter and per-file language detection agree: a language's built-in extension table is only ever used
+    # merged with the user's languageGlobs (merge_globs).  A type filter built from the bare table skips, in a tree walk, files that a
+    # per-file scan recognises through languageGlobs.
+    raw = [c for c in prog.who_calls(r"^(ast_grep_language::SupportLang|ast_grep_dynamic::DynamicLang|ast_grep_dynamic::\w+)::file_types$") if c.fn.crate == "ast_grep"]
+    ctx.floor("R5", "uses of the built-in file-type tables in the cli", len(raw), 2)
+    for c in raw:
+        f = c.fn
+        fam = prog.family(prog.fns.get(f.root) or f) if f.is_closure else prog.family(f)
+        merged = False
+        for g in fam:
+            for m in g.calls:
+                if m.name == "merge_globs" and len(m.args) >= 2 and any(h is f and o.kind == "call" and o.ref is c for h, o in ultimate_roots(prog, g, m.args[1], TRANSPARENT)):
+                    merged = True
+        key = "built-in file types of %s are merged with languageGlobs in %s" % (c.best.split("::")[-2], (f.root or f.id) if f.is_closure else f.id)
+        ctx.ob("R5", key, merged, "the table flows into lang_globs::merge_globs" if merged else
+               "the bare extension table is used without lang_globs::merge_globs: the walker's type filter no longer contains the languageGlobs of that language, so a tree walk "
+               "skips files that scanning the file alone (language detection honours languageGlobs) processes", where=f.loc(c.line))
     rf = ctx.anchor("R5", r"^ast_grep::utils::read_file$")
     tl = ctx.anchor("R5", r"^ast_grep::utils::file_too_large$")
     if rf and tl:
